@@ -159,7 +159,7 @@ Qed.
 Definition ex06_spec (inp : list (str * (list scmd * ret_val))) : screen_spec :=
   {| sc_setup := []; sc_refresh := []; sc_show := []; sc_closed := []; sc_input := inp;
      sc_input_default := ([], None); sc_prompt_none := false; sc_input_required := true;
-     sc_no_separator := false; sc_skip_check := false; sc_pages := 0; sc_answer0 := AnsNoAttr |}.
+     sc_no_separator := false; sc_skip_check := false; sc_pages := 0; sc_answer0 := AnsNoAttr; sc_custom := [] |}.
 Definition ex06_specl : list screen_spec :=
   [ex06_spec [([49%N], ([SPush 1 3], RProcessed)); ([50%N], ([SPushModal 2 0], RProcessed))];
    ex06_spec []; ex06_spec []].
@@ -199,7 +199,7 @@ Definition legacy_input_ready_handler (specs : nat -> screen_spec) (n : nat) (sg
 Definition legacy_screen_code (specs : nat -> screen_spec) (hid : nat) (sg : signal) (data : nat) : sprog :=
   if (hid =? H_RENDER)%nat || (hid =? H_CLOSE)%nat || (hid =? H_RECEIVED)%nat then screen_code specs hid sg data
   else if (10 <=? hid)%nat then legacy_input_ready_handler specs (hid - 10) sg
-  else PRet.
+  else screen_code specs hid sg data.                (* a screen's own signal callback, or nothing *)
 Fixpoint legacy_app_session (specs : nat -> screen_spec) (fuel : nat) (acts : list saction) (s : lstate sstate)
   : list outcome * lstate sstate :=
   match acts with
@@ -230,7 +230,7 @@ Definition legacy_app_run_all (specs : nat -> screen_spec) (specl : list screen_
 Definition f15_spec : screen_spec :=
   {| sc_setup := []; sc_refresh := [SIfCount 1 [] [SForceQuit]]; sc_show := [SIfCount 1 [SPush 0 2] []]; sc_closed := [];
      sc_input := []; sc_input_default := ([], Some RProcessed); sc_prompt_none := false; sc_input_required := true;
-     sc_no_separator := false; sc_skip_check := false; sc_pages := 0; sc_answer0 := AnsNoAttr |}.
+     sc_no_separator := false; sc_skip_check := false; sc_pages := 0; sc_answer0 := AnsNoAttr; sc_custom := [] |}.
 Definition f15_typed : list (option str) := [Some [49%N]; Some [50%N]].
 Definition f15_acts : list saction := [SACmds [SSchedule 0 1]; SARun; SARun].
 Definition f15_trace : list event :=
